@@ -45,9 +45,12 @@ func (e Edit) String() string {
 	return fmt.Sprintf("%s(n=%d,m=%d,path=%q,name=%q)", names[e.Kind], e.N, e.M, e.Path, e.Name)
 }
 
-// Script draws an edit script. The indices are taken modulo what the tree offers at apply time,
-// so a script is always applicable.
-func Script(t *tape.Tape, max int, conflicts bool) []Edit {
+// DupPath is a package that no name table names exactly; the truth map only holds two VENDORED
+// copies of it with different names (gen.Truth). Resolvers must not fish for it.
+const DupPath = "v.io/dup"
+
+// Script draws an edit script. exotic (optional) allows paths that the name tables cannot name.
+func Script(t *tape.Tape, max int, conflicts bool, exotic ...bool) []Edit {
 	n := t.Draw(max + 1)
 	var out []Edit
 	for i := 0; i < n; i++ {
@@ -59,6 +62,9 @@ func Script(t *tape.Tape, max int, conflicts bool) []Edit {
 			p = gen.Pool[t.Draw(len(gen.Pool)-1)] // never the vendor path: dst strips it on decorate only
 		}
 		e.Path = p.Path
+		if len(exotic) > 0 && exotic[0] && t.Bool(1, 12) {
+			e.Path = DupPath
+		}
 		if t.Bool(1, 10) {
 			// an identifier that carries the LOCAL package path (what ResolveLocalPath or hand-moved
 			// code produces): the restorer must print it unqualified and must not need an import
